@@ -7,6 +7,7 @@ use crate::fam_s;
 use crate::gast::*;
 use crate::progcheck::*;
 use crate::props::c03::full_domain;
+use crate::subject::{self, CompileOutcome, Config, RealOutcome};
 use serde_json::json;
 use std::collections::BTreeMap;
 use std::sync::Arc;
@@ -264,6 +265,110 @@ pub fn coverage_json(fr: &FamilyRun, rule: &str, budget: &Budget) -> serde_json:
     })
 }
 
+/// The same program written differently must mean the same: every `stride`-th program of the families is
+/// re-spelled - whitespace runs become tabs, CRLF, blank lines, block and line comments (with keywords
+/// inside), lines are joined; one-letter identifiers become identifiers that begin with a keyword or
+/// contain digits and underscores - compiled, and compared with the plain spelling on every input: same
+/// panic flag, same reason, same value bits (source locations legitimately move).
+pub fn respelled_text_differential(jobs: &[Job], stride: usize, budget: &Budget, coll: &Collector) -> (u64, u64) {
+    fn respell(text: &str) -> String {
+        let renames: [(&str, &str); 12] = [("n", "iffy"), ("m", "matches_1"), ("b", "truex"), ("a", "letter0"), ("i", "input_2"), ("x", "constant"), ("v", "for_each"), ("s", "structure"), ("t", "type_0"), ("p", "pubx"), ("e", "else1"), ("r", "return_0")];
+        let mut out = String::new();
+        let cs: Vec<char> = text.chars().collect();
+        let mut k = 0;
+        let mut ws_index = 0usize;
+        while k < cs.len() {
+            let c = cs[k];
+            if c.is_whitespace() {
+                let mut j = k;
+                let mut has_nl = false;
+                while j < cs.len() && cs[j].is_whitespace() {
+                    has_nl |= cs[j] == '\n';
+                    j += 1;
+                }
+                ws_index += 1;
+                let choice = (ws_index * 7 + j) % 11;
+                let repl = if has_nl {
+                    match choice {
+                        0 => "\n",
+                        1 => "\r\n\t",
+                        2 => "\n\n      ",
+                        3 => " /* if match { */\n  ",
+                        4 => " // let x = 1; }\n",
+                        5 => " ",
+                        6 => "\r\n",
+                        _ => "\n  ",
+                    }
+                } else {
+                    match choice {
+                        0 => "\t",
+                        1 => "  ",
+                        2 => " /* c */ ",
+                        3 => "\n",
+                        4 => "\r\n    ",
+                        5 => " // c\n  ",
+                        _ => " ",
+                    }
+                };
+                out.push_str(repl);
+                k = j;
+            } else if c.is_ascii_alphabetic() || c == '_' {
+                let mut j = k;
+                while j < cs.len() && (cs[j].is_ascii_alphanumeric() || cs[j] == '_') {
+                    j += 1;
+                }
+                let word: String = cs[k..j].iter().collect();
+                // a number's suffix (1u8) is part of the preceding token, not a word of its own
+                let after_digit = k > 0 && cs[k - 1].is_ascii_digit();
+                match renames.iter().find(|(from, _)| *from == word) {
+                    Some((_, to)) if !after_digit => out.push_str(to),
+                    _ => out.push_str(&word),
+                }
+                k = j;
+            } else {
+                out.push(c);
+                k += 1;
+            }
+        }
+        out
+    }
+    let pairs = std::sync::atomic::AtomicU64::new(0);
+    let evals = std::sync::atomic::AtomicU64::new(0);
+    let picked: Vec<&Job> = jobs.iter().step_by(stride.max(1)).collect();
+    par_range(picked.len(), budget, |i| {
+        let job = picked[i];
+        let Ok(prep) = subject::prepare(job.prog.clone()) else { return };
+        let other = respell(&prep.text);
+        let cfg = Config { register: false, dedup: true };
+        let (CompileOutcome::Ok(a), b) = (subject::compile(&prep.text, cfg, Default::default()), subject::compile(&other, cfg, Default::default())) else { return };
+        let case = || json!({"kind": "program-pair", "source": prep.text, "respelled": other});
+        let b = match b {
+            CompileOutcome::Ok(b) => b,
+            o => {
+                coll.push(Violation::new("C01", format!("R/{}", job.site), "respelled-program-not-accepted", "", case(), format!("{o:?}").chars().take(300).collect::<String>()));
+                return;
+            }
+        };
+        pairs.fetch_add(1, std::sync::atomic::Ordering::Relaxed);
+        for args in job.inputs.iter().take(24) {
+            let inp = subject::encode_args(&prep.prog, args);
+            let (ra, rb) = (subject::eval(&a.circuit, &inp), subject::eval(&b.circuit, &inp));
+            evals.fetch_add(1, std::sync::atomic::Ordering::Relaxed);
+            let same = match (&ra, &rb) {
+                (RealOutcome::Value(x), RealOutcome::Value(y)) => x == y,
+                (RealOutcome::Panic(x, _), RealOutcome::Panic(y, _)) => x == y,
+                _ => false,
+            };
+            if !same {
+                let prop = if matches!(ra, RealOutcome::Panic(..)) || matches!(rb, RealOutcome::Panic(..)) { "C02" } else { "C01" };
+                coll.push(Violation::new(prop, format!("R/{}", job.site), "respelled-program-differs", show_args(args), case(), format!("plain spelling: {ra:?}; re-spelled: {rb:?}").chars().take(400).collect::<String>()));
+                break;
+            }
+        }
+    });
+    (pairs.load(std::sync::atomic::Ordering::Relaxed), evals.load(std::sync::atomic::Ordering::Relaxed))
+}
+
 pub fn run_shared(property: &'static str, tier: Tier, families: &[&str], extra_assumptions: Vec<String>) -> i32 {
     let start = Instant::now();
     let budget = Budget::new(tier.pick(240.0, 3300.0));
@@ -275,7 +380,12 @@ pub fn run_shared(property: &'static str, tier: Tier, families: &[&str], extra_a
         }
         eprintln!("{property}: {} jobs generated {per:?}, rss {:.1} GB, {:.0}s", jobs.len(), rss_gb(), start.elapsed().as_secs_f64());
     }
+    let respelled_coll = Collector::new();
+    let respelled = if property == "C01" || property == "C14" { Some(respelled_text_differential(&jobs, tier.pick(9, 29), &budget, &respelled_coll)) } else { None };
     let fr = run_jobs(jobs, attribution_for, &budget, plan);
+    for v in respelled_coll.violations.lock().unwrap().iter() {
+        fr.coll.push(v.clone());
+    }
     let mut cov_extra = None;
     if property == "C01" {
         // programs with unsuffixed literals: same outputs as their fully suffixed counterpart
@@ -290,6 +400,10 @@ pub fn run_shared(property: &'static str, tier: Tier, families: &[&str], extra_a
     ];
     assumptions.extend(extra_assumptions);
     let mut coverage = coverage_json(&fr, FAMILY_RULE, &budget);
+    if let (Some((pairs, evals)), serde_json::Value::Object(m)) = (respelled, &mut coverage) {
+        m.insert("respelled_program_pairs(whitespace / comments / line endings / keyword-prefixed identifiers; same flag, reason and value bits on up to 24 inputs)".into(), json!(pairs));
+        m.insert("respelled_program_evaluations".into(), json!(evals));
+    }
     if let (Some((pairs, evals)), serde_json::Value::Object(m)) = (cov_extra, &mut coverage) {
         m.insert("family_I_suffix_variant_pairs_compared_with_fully_suffixed_program".into(), json!(pairs));
         m.insert("family_I_suffix_variant_evaluations".into(), json!(evals));
